@@ -252,7 +252,7 @@ def handleTup (fields : List String) : String :=
   | [dim, valsS, op, argsS] =>
     let vals := ((valsS.splitOn ",").filter (· != "")).map parseFloat
     let a := if argsS == "-" then [] else (argsS.splitOn ",").map parseFloat
-    let n := match dim with | "3" => 3 | "4" => 4 | _ => 2
+    let n := match dim with | "3" => 3 | "4" => 4 | "1" => 1 | "5" => 5 | "6" => 6 | _ => 2
     if vals.length != n then "bad-case" else
     let nan := Float.ofBits 0x7FF8000000000000
     let t : Data.Tuple Float := ⟨vals⟩
@@ -270,6 +270,8 @@ def handleTup (fields : List String) : String :=
       | "set_xyzt", [x, y, z, w] => some (t.setXyzt nan x y z w, [])
       | "fill", [v] => some (t.fill v, [])
       | "update", vs => some (t.update vs, [])
+      | "scale", [f] => some (t.scale f, [])
+      | "dot", vs => if op == "dot" && vs.length == n then some (t, [t.dot 0.0 nan ⟨vs⟩]) else none
       | _, _ => none
     match r with
     | some (t', read) => ",".intercalate (t'.vals.map fbits) ++ " | " ++ ",".intercalate (read.map fbits)
